@@ -172,7 +172,8 @@ static void describe_c04(const Plan &p, const RunResult &r, J &line) {
         RecJudge j = judge_record(cv, r);
         if (j.conclusive) nontrivial = true; else line.set("inconclusive", true);
         size_t len = j.exp.msg.full.size();
-        sig += j.sig + "|len" + std::to_string(len < 2 ? len : len < 256 ? 2 : len < 4096 ? 3 : len < 65536 ? 4 : 5) + "|fd1:" + std::to_string(cv.w.stdout_kind) + (cv.op->success ? "|ok" : "|fail") + ";";
+        sig += j.sig + "|len" + std::to_string(len < 2 ? len : len < 256 ? 2 : len < 4096 ? 3 : len < 65536 ? 4 : 5) + "|fd1:" + std::to_string(cv.w.stdout_kind) + (cv.op->success ? "|ok" : "|fail") +
+               "|" + j.exp.msg.shape.substr(0, 12) + "|p" + std::to_string(j.exp.cfg.facility | j.exp.cfg.level) + (j.exp.cfg.ident == "snoopy" ? "" : "i") + (j.exp.cfg.error_logging ? "E" : "") + (j.exp.sink_usable ? "" : "!") + ";";
         line.set("p_output_" + j.exp.cfg.output, true);
         if (j.exp.filtered) line.set("p_drop", true);
         if (!j.exp.log && !j.exp.filtered) line.set("p_empty_or_none", true);
